@@ -146,6 +146,78 @@ def choice_cases(rng, table, quick):
     return cases
 
 
+def _req_body(rng, consumer, n):
+    """bodies for which re-encoding the consumer's decoded value gives back exactly the bytes it
+    was given, also for every prefix the scenarios can produce"""
+    if n == 0:
+        return []
+    if consumer == "req_get_json":      # every non-empty prefix is a JSON number, no leading zero
+        return list(("".join(rng.choice("123456789") for _ in range(n))).encode())
+    if consumer == "req_form":          # "q=vvvv": every prefix of length 0 or >= 2 re-encodes exactly
+        return list(("q=" + "".join(rng.choice("abcxyz") for _ in range(n)))[:max(n, 2)].encode())
+    return [rng.choice(b"abcdefgh\n {}\"") for _ in range(n)]
+
+
+def request_cases(rng, quick):
+    """Request-level consumers over the same underlying-stream plans: fragmentation 1/2/whole,
+    with/without readinto, early end (body shorter than declared), OSError at call j, declared
+    length below / at / above what the client sent, terminated input with max_content_length."""
+    cases = []
+
+    def add(consumer, n, limit, is_max, hasri, plan, default, mx=-1, send_cl=False):
+        if consumer == "req_get_json" and (n == 0 or limit == 0):
+            return          # an empty body is not JSON: BadRequest is correct there, nothing to judge
+        if consumer == "req_form" and limit == 1:
+            return          # the 1-byte prefix "q" re-encodes as "q=": ambiguous, left out
+        body = _req_body(rng, consumer, n)
+        if is_max and send_cl and len(body) > limit:
+            send_cl = False  # Content-Length above the maximum is the decision table's case, not this layer's
+        cases.append({"data": body, "limit": limit, "is_max": is_max, "hasri": hasri, "plan": plan, "default": default,
+                      "consumer": consumer, "max": mx, "send_cl": send_cl})
+
+    for consumer in L.REQ_CONSUMERS:
+        for n in (0, 6):
+            for dl in (-2, 0, 3):
+                limit = max(0, n + dl)
+                for is_max in (False, True):
+                    for hasri in (False, True):
+                        for default in (1, 2, L.HUGE):
+                            for plan in ([], [L.ERR], [2, L.ERR]):
+                                add(consumer, n, limit, is_max, hasri, plan, default)
+    for _ in range(900 if quick else 40000):
+        consumer = rng.choice(L.REQ_CONSUMERS)
+        n = rng.randint(0, 24)
+        limit = max(0, n + rng.choice([-5, -1, 0, 0, 0, 1, 4]))
+        plan = [L.ERR if rng.random() < 0.06 else rng.choice([1, 1, 2, 3, 5, 9]) for _ in range(rng.randint(0, 8))]
+        is_max = rng.random() < 0.4
+        add(consumer, n, limit, is_max, rng.random() < 0.5, plan, rng.choice([1, 2, 4, L.HUGE]),
+            mx=rng.choice([-1, -1, limit, limit + 7]), send_cl=rng.random() < 0.5)
+    return cases
+
+
+def _run_request(case):
+    return L.run_request(case)
+
+
+def judge_requests(ctx: Ctx, cases):
+    results = pmap(_run_request, cases, workers=min(ctx.workers, 8), chunksize=32)
+    lines = []
+    for t, (case, tr) in enumerate(zip(cases, results)):
+        for ln in tr:
+            ln["t"] = t
+            lines.append(ln)
+        ctx.count(len(tr) - 1, ("request", case["consumer"], bytes(case["data"]), case["limit"], case["is_max"], case["hasri"],
+                                tuple(map(str, case["plan"])), case["default"], case["max"], case["send_cl"]))
+        if t % 1201 == 7:
+            ctx.sample({"kind": "request-consumer", "consumer": case["consumer"], "body": bytes(case["data"]).decode("latin-1"),
+                        "declared_or_max": case["limit"], "limit_is_max": case["is_max"], "plan": case["plan"],
+                        "results": [[ln["op"], ln["rk"], bytes(ln["rb"]).decode("latin-1"), ln["rx"], ln["ev"]] for ln in tr[1:]]})
+    for r in ctx.judge(AREA, "LimitedStreamTrace", lines, batch=6000):
+        case = cases[r["t"]]
+        op = [case["consumer"], "req_stream_read", "req_close"][r["i"]]
+        ctx.violation(f"{r['clause']}:{op}:request", r["clause"], case, kind="request")
+
+
 # ------------------------------------------------------------------ judge
 def judge_traces(ctx: Ctx, cases, kind):
     results = pmap(_run, cases, workers=min(ctx.workers, 8), chunksize=32)
@@ -322,8 +394,8 @@ def run(ctx: Ctx):
     ctx.notes["model_behaviours_exported"] = len(behaviours)
     if not behaviours:
         raise tlc.MachineryError("no behaviours exported from the model")
-    if q and len(behaviours) > 4000:
-        behaviours = rng.sample(behaviours, 4000)
+    if q and len(behaviours) > 3000:
+        behaviours = rng.sample(behaviours, 3000)
     elif len(behaviours) > 100000:
         behaviours = rng.sample(behaviours, 100000)
     ctx.notes["model_behaviours_replayed"] = len(behaviours)
@@ -334,9 +406,11 @@ def run(ctx: Ctx):
     judge_choices(ctx, choice_cases(rng, table, q))
     # 3. code -> spec
     cases = enum_cases(q)
-    cases += [rand_case(rng) for _ in range(2500 if q else 70000)]
+    cases += [rand_case(rng) for _ in range(2000 if q else 70000)]
     cases += [rand_case(rng, big=True) for _ in range(300 if q else 6000)]
     judge_traces(ctx, cases, "driver")
+    # 4. Request-level consumers of the body stream (wrappers/request.py)
+    judge_requests(ctx, request_cases(rng, q))
     if ctx.model_drift:
         ctx.notes["model_drift_count"] = len(ctx.model_drift)
 
@@ -347,5 +421,7 @@ def replay(ctx: Ctx, data):
     ctx.nontrivial.update({("replay", 0), ("replay", 1)})
     if data.get("kind") == "choice":
         judge_choices(ctx, [case])
+    elif data.get("kind") == "request":
+        judge_requests(ctx, [case])
     else:
         judge_traces(ctx, [case], "replay")
